@@ -146,6 +146,15 @@ fn run(eng: &Engine, a: &Args) {
         let scripts: Vec<Vec<u8>> = (0..4).map(|i| vec![0x51 + i as u8]).collect();
         fixed.push(Case { chain: vpmodel::spec::chain_from_scripts(vpmodel::chain::Coin::Dogecoin, &scripts, &[3, 1000], 1, 1, base, 1_700_000_000), start_sel: None, end_sel: None });
     }
+    // a range that STARTS exactly at a halving height, one above, one below (state seeded from --start must agree with
+    // what walking across the boundary gives)
+    for (k, coin) in [vpmodel::chain::Coin::Bitcoin, vpmodel::chain::Coin::Litecoin].iter().enumerate() {
+        let scripts: Vec<Vec<u8>> = (0..8).map(|i| vec![0x51 + i as u8]).collect();
+        let base = 210_000 * (1 + k as u64 * 2) - 2;
+        for sel in [0u16, 8_200, 16_400, 24_600, 32_800] {
+            fixed.push(Case { chain: vpmodel::spec::chain_from_scripts(*coin, &scripts, &[3_000_000_000, 1000], 1, 1, base, 1_600_000_000), start_sel: Some(sel), end_sel: None });
+        }
+    }
     // the biggest transaction carries a script whose length sits on a CompactSize boundary
     for (k, len) in [252usize, 253, 254, 65534, 65535, 65536].iter().enumerate() {
         let mut scripts: Vec<Vec<u8>> = (0..5).map(|i| vec![0x52 + i as u8]).collect();
